@@ -277,6 +277,21 @@ func vGenSet(rng *rand.Rand, set int, n int) []vGenEvent {
 			if rng.Intn(8) == 0 && clock > 0 {
 				clock-- // unusual: tie with an ancestor's clock, exercises time / ref tie-breakers
 			}
+			if rng.Intn(12) == 0 {
+				prevs = nil // a second root: a transaction of an existing DID that names no predecessor at all
+			}
+		}
+		// TX.Prevs are DAG heads: they also name transactions of other DIDs and transactions this store never sees
+		if len(out) > 0 && rng.Intn(3) == 0 {
+			for k := 1 + rng.Intn(2); k > 0; k-- {
+				o := out[rng.Intn(len(out))]
+				foreign := hash.SHA256Sum([]byte(fmt.Sprintf("foreign-%d-%d", set, rng.Int63())))
+				if o.doc.ID.String() != id {
+					foreign = o.tx.Ref
+				}
+				at := rng.Intn(len(prevs) + 1)
+				prevs = append(prevs[:at:at], append([]hash.SHA256Hash{foreign}, prevs[at:]...)...)
+			}
 		}
 		deact := len(mine) > 0 && rng.Intn(7) == 0
 		doc := vMakeDoc(rng, id, others, deact)
@@ -297,9 +312,17 @@ func vGenSet(rng *rand.Rand, set int, n int) []vGenEvent {
 		if rng.Intn(3) == 0 {
 			sub = subs[rng.Intn(len(subs))] // signing times that differ (or tie) only below the second
 		}
+		st := time.Unix(t, sub).UTC()
+		if rng.Intn(3) == 0 { // same clock AND same signing time as a sibling: only the ref orders the two
+			for _, k := range mine {
+				if out[k].tx.Clock == clock {
+					st = out[k].tx.SigningTime
+				}
+			}
+		}
 		tx := Transaction{
 			Clock:       clock,
-			SigningTime: time.Unix(t, sub).UTC(),
+			SigningTime: st,
 			Ref:         hash.SHA256Sum([]byte(fmt.Sprintf("ref-%d-%d-%d", set, len(out), rng.Int63()))),
 			PayloadHash: hash.SHA256Sum(raw),
 			Previous:    prevs,
